@@ -1,5 +1,5 @@
 //verif:pkg internal/spynode
-//verif:kit memstore nodekit synckit
+//verif:kit memstore nodekit synckit worldkit
 package spynode
 
 // C01 — convergence to the trusted peer's best chain through extensions and
@@ -13,120 +13,6 @@ import (
 
 	"github.com/tokenized/spynode/internal/verifrt"
 )
-
-type c01World struct {
-	ctx    context.Context
-	k      *vkNode
-	tree   *vkTree
-	peer   *vkPeer
-	last   wire.Message // last message delivered to the node
-	heard  map[string]bool // blocks whose announcement has been delivered to the node
-	inSync int          // number of in-sync notifications seen so far (across restarts)
-}
-
-func (w *c01World) pump() {
-	for _, m := range vkOutgoing(w.k.node) {
-		w.peer.handle(m)
-	}
-}
-
-func (w *c01World) deliver() bool {
-	if len(w.peer.toNode) == 0 {
-		return false
-	}
-	m := w.peer.toNode[0]
-	w.peer.toNode = w.peer.toNode[1:]
-	w.last = m
-	if hm, ok := m.(*wire.MsgHeaders); ok {
-		for _, h := range hm.Headers {
-			if n, known := w.tree.byHash[*h.BlockHash()]; known {
-				w.heard[n] = true
-			}
-		}
-	}
-	w.k.node.handleMessage(w.ctx, m)
-	w.pump()
-	return true
-}
-
-func (w *c01World) process() {
-	err := vkProcessRun(w.ctx, w.k.node)
-	verifrt.Sig("process", "err")
-	verifrt.Assert(err == nil, "C01.process.no-error")
-	w.pump()
-}
-
-func (w *c01World) poll() {
-	err := w.k.node.check(w.ctx)
-	verifrt.Sig("check", "err")
-	verifrt.Assert(err == nil, "C01.check.no-error")
-	w.pump()
-}
-
-// restart: clean stop (saves), state reset, a new node on the same storage and
-// a new connection to the peer.
-func (w *c01World) restart() {
-	n := w.k.node
-	n.blocks.Save(w.ctx)
-	n.txs.Save(w.ctx)
-	n.peers.Save(w.ctx)
-	n.state.Reset()
-	w.inSync += w.countInSync()
-	k2, err := vkNewNode(w.ctx, w.k.store)
-	verifrt.Sig("restart", "load")
-	verifrt.Assert(err == nil, "C01.restart.loads")
-	if err != nil {
-		verifrt.Assume(false)
-	}
-	w.k = k2
-	w.k.node.state.SetVersionReceived()
-	w.k.node.state.MarkConnected()
-	w.peer.toNode = nil
-	w.peer.sendHeaders = false
-	w.peer.announced = map[string]bool{}
-	verifrt.Reach("C01.restarted")
-}
-
-func (w *c01World) countInSync() int {
-	n := 0
-	for _, e := range w.k.rec.events {
-		if e.kind == "insync" {
-			n++
-		}
-	}
-	return n
-}
-
-// holdsAllAnnounced: the node's store contains every block the peer has announced so far.
-func (w *c01World) holdsAllAnnounced() bool {
-	for _, name := range w.peer.best {
-		// (blocks of an abandoned branch are not held after the reorganisation; the
-		// announced blocks that count are those of the peer's current best chain)
-		if !w.heard[name] {
-			continue
-		}
-		h := w.tree.hashes[name]
-		if !w.k.node.blocks.Contains(&h) {
-			return false
-		}
-	}
-	return true
-}
-
-func (w *c01World) checkInSyncNotifications(before int) {
-	if w.countInSync() > before {
-		var ann []string
-		for _, n := range w.peer.best {
-			if w.heard[n] {
-				ann = append(ann, n)
-			}
-		}
-		verifrt.Note("in-sync notified: node height %d tip %s, peer best %v, announced of best %v", w.k.node.blocks.LastHeight(), w.tree.byHash[*w.k.node.blocks.LastHash()], w.peer.best, ann)
-		verifrt.Sig("insync", "early")
-		verifrt.Assert(w.holdsAllAnnounced(), "C01.in-sync.only-when-holding-every-announced-block")
-		verifrt.Reach("C01.in-sync.notified")
-	}
-}
 
 func VerifHarness_C01_converge() {
 	ctx := context.Background()
@@ -214,11 +100,3 @@ func VerifHarness_C01_converge() {
 	verifrt.Reach("C01.converge.done")
 }
 
-func (w *c01World) converged() bool {
-	best := w.peer.best
-	if w.k.node.blocks.LastHeight() != len(best) {
-		return false
-	}
-	h := w.tree.hashes[best[len(best)-1]]
-	return *w.k.node.blocks.LastHash() == h
-}
